@@ -514,4 +514,150 @@ theorem waitLimited_no_fail (dl : Int) (fuel : Nat) (os : Os) (hs : ∀ a ∈ os
         · cases hp; simp
         · rename_i e0; exact absurd rfl (ha0 e0)
 
+/-! ### the send loops: what reaches the OS is a prefix of the caller's buffer, and the count returned is its length
+(used by `Props/C01.lean` and by `Spec/C01.lean`) -/
+
+/-- loop invariant of `SendAll` -/
+theorem sendAllLoop_inv (fuel : Nat) (rem : Bytes) (sent : Nat) (os os' : Os) (r : Res Nat)
+    (h : sendAllLoop fuel rem sent os = (r, os')) :
+    ∃ n, n ≤ rem.length ∧ wire os' = wire os ++ rem.take n ∧
+      (∀ m, r = .ok m → m = sent + rem.length ∧ n = rem.length) := by
+  induction fuel generalizing rem sent os with
+  | zero => cases h; exact ⟨0, by omega, by simp, by intro m h; cases h⟩
+  | succ fuel ih =>
+    unfold sendAllLoop at h
+    cases hw : wait (-1) os with
+    | mk rw osw =>
+      rw [hw] at h
+      have hwf := wait_spec hw (by decide) (by decide)
+      cases rw with
+      | exn e => cases h; exact ⟨0, by omega, by simp [hwf.1], by intro m h; cases h⟩
+      | ok b =>
+        simp only at h
+        cases hs : sendNow rem osw with
+        | mk rs oss =>
+          rw [hs] at h
+          obtain ⟨_, _, _, _, _, _, n, hn, hwire, hok⟩ := sendNow_facts hs
+          cases rs with
+          | exn e =>
+            cases h
+            exact ⟨n, hn, by rw [hwire, hwf.1], by intro m h; cases h⟩
+          | ok k =>
+            simp only at h
+            have hk := (hok k rfl).1
+            subst hk
+            split at h
+            · rename_i hemp
+              cases h
+              have hlen : rem.length ≤ k := by simpa using hemp
+              have hkl : k = rem.length := by omega
+              refine ⟨k, hn, by rw [hwire, hwf.1], ?_⟩
+              intro m hm; cases hm
+              exact ⟨by omega, hkl⟩
+            · obtain ⟨n2, hn2, hwire2, hok2⟩ := ih (rem.drop k) (sent + k) oss h
+              refine ⟨k + n2, ?_, ?_, ?_⟩
+              · simp only [List.length_drop] at hn2; omega
+              · rw [hwire2, hwire, hwf.1, List.append_assoc, take_drop_take]
+              · intro m hm
+                obtain ⟨h1, h2⟩ := hok2 m hm
+                simp only [List.length_drop] at h1 h2
+                exact ⟨by omega, by omega⟩
+
+/-- `SendTry` (timeout 0): `0 ≤ n ≤ size`, and exactly the first n bytes reached the OS -/
+theorem sendTry_inv (data : Bytes) (os os' : Os) (r : Res Nat) (h : sendTry data os = (r, os')) :
+    ∃ n, n ≤ data.length ∧ wire os' = wire os ++ data.take n ∧ (∀ m, r = .ok m → m = n) := by
+  unfold sendTry at h
+  cases hw : wait 0 os with
+  | mk rw osw =>
+    rw [hw] at h
+    have hwf := wait_spec hw (by decide) (by decide)
+    cases rw with
+    | exn e => cases h; exact ⟨0, by omega, by simp [hwf.1], by intro m h; cases h⟩
+    | ok b =>
+      cases b with
+      | false => cases h; exact ⟨0, by omega, by simp [hwf.1], by intro m h; cases h; rfl⟩
+      | true =>
+        simp only at h
+        obtain ⟨_, _, _, _, _, _, n, hn, hwire, hok⟩ := sendNow_facts h
+        exact ⟨n, hn, by rw [hwire, hwf.1], fun m hm => (hok m hm).1⟩
+
+/-- loop invariant of `SendSome` -/
+theorem sendSomeLoop_inv (deadline : Int) (fuel : Nat) (rem : Bytes) (sent : Nat) (dnow : Int) (os os' : Os)
+    (r : Res Nat) (h : sendSomeLoop deadline fuel rem sent dnow os = (r, os')) :
+    ∃ n, n ≤ rem.length ∧ wire os' = wire os ++ rem.take n ∧ (∀ m, r = .ok m → m = sent + n) := by
+  induction fuel generalizing rem sent dnow os with
+  | zero => cases h; exact ⟨0, by omega, by simp, by intro m h; cases h⟩
+  | succ fuel ih =>
+    unfold sendSomeLoop at h
+    cases hw : wait (Deadline.limited dnow deadline).remaining os with
+    | mk rw osw =>
+      rw [hw] at h
+      -- `wait` never touches the wire (no bound on the timeout needed for that)
+      have hwire0 : wire osw = wire os := by
+        unfold wait at hw
+        split at hw
+        · have := (waitFixed_facts (toMsec (Deadline.limited dnow deadline).remaining) (os.polls.length + 1) os).wire
+          rw [hw] at this; exact this
+        · have : ∀ (dl : Int) (fuel : Nat) (o : Os), wire (waitLimited dl fuel o).2 = wire o := by
+            intro dl fuel
+            induction fuel with
+            | zero => intro o; rfl
+            | succ fuel ih2 =>
+              intro o
+              unfold waitLimited
+              cases hp : pollOnce (toMsec (Deadline.limited o.now dl).remaining) o with
+              | none => rfl
+              | some x =>
+                obtain ⟨a, o1⟩ := x
+                cases a with
+                | ready d => exact pollOnce_wire hp
+                | timedOut => exact pollOnce_wire hp
+                | fail e => exact pollOnce_wire hp
+                | eintr d => simp only; rw [ih2 o1, pollOnce_wire hp]
+          have := this (os.now + (Deadline.limited dnow deadline).remaining * nsPerMs) (os.polls.length + 1) os
+          rw [hw] at this; exact this
+      cases rw with
+      | exn e => cases h; exact ⟨0, by omega, by simp [hwire0], by intro m h; cases h⟩
+      | ok b =>
+        cases b with
+        | false => cases h; exact ⟨0, by omega, by simp [hwire0], by intro m h; cases h; rfl⟩
+        | true =>
+          simp only at h
+          cases hs : sendNow rem osw with
+          | mk rs oss =>
+            rw [hs] at h
+            obtain ⟨_, _, _, _, _, _, n, hn, hwire, hok⟩ := sendNow_facts hs
+            cases rs with
+            | exn e => cases h; exact ⟨n, hn, by rw [hwire, hwire0], by intro m h; cases h⟩
+            | ok k =>
+              simp only at h
+              have hk := (hok k rfl).1
+              subst hk
+              split at h
+              · cases h
+                exact ⟨k, hn, by rw [hwire, hwire0], by intro m hm; cases hm; rfl⟩
+              · obtain ⟨n2, hn2, hwire2, hok2⟩ := ih (rem.drop k) (sent + k) osw.now oss h
+                refine ⟨k + n2, ?_, ?_, ?_⟩
+                · simp only [List.length_drop] at hn2; omega
+                · rw [hwire2, hwire, hwire0, List.append_assoc, take_drop_take]
+                · intro m hm; have := hok2 m hm; omega
+
+/-- every timeout mode of `Send`: exactly a prefix of the buffer reaches the OS; a returned count is its length -/
+theorem send_prefix (data : Bytes) (T : Int) (os os' : Os) (r : Res Nat) (h : send data T os = (r, os')) :
+    ∃ n, n ≤ data.length ∧ wire os' = wire os ++ data.take n ∧
+      (∀ m, r = .ok m → m = n ∧ (T < 0 → m = data.length)) := by
+  unfold send at h
+  split at h
+  · obtain ⟨n, hn, hw, hok⟩ := sendAllLoop_inv _ data 0 os os' r h
+    refine ⟨n, hn, hw, ?_⟩
+    intro m hm
+    obtain ⟨h1, h2⟩ := hok m hm
+    exact ⟨by omega, fun _ => by omega⟩
+  · split at h
+    · obtain ⟨n, hn, hw, hok⟩ := sendTry_inv data os os' r h
+      exact ⟨n, hn, hw, fun m hm => ⟨hok m hm, fun hT => by omega⟩⟩
+    · obtain ⟨n, hn, hw, hok⟩ := sendSomeLoop_inv _ _ data 0 os.now os os' r h
+      exact ⟨n, hn, hw, fun m hm => ⟨by have := hok m hm; omega, fun hT => by omega⟩⟩
+
+
 end SockModel.SendLoop
